@@ -474,6 +474,25 @@ static int32_t rtosc_convert_to_range(const rtosc_arg_val_t* const arg,
         return 0;
 }
 
+//! the value left of the argument @a cur, as a reader of the printed text
+//! will see it: if the previous argument (starting at @a prev_start) is a
+//! range with delta, this is the range's last value, not its first
+static const rtosc_arg_val_t* left_neighbour(const rtosc_arg_val_t* prev_start,
+                                             const rtosc_arg_val_t* cur,
+                                             rtosc_arg_val_t* buf)
+{
+    if(!prev_start)
+        return NULL;
+    if(prev_start->type == '-' && rtosc_av_rep_has_delta(prev_start) &&
+       rtosc_av_rep_num(prev_start) > 0)
+    {
+        rtosc_arg_val_range_arg(prev_start,
+                                rtosc_av_rep_num(prev_start) - 1, buf);
+        return buf;
+    }
+    return cur - 1;
+}
+
 size_t rtosc_print_arg_val(const rtosc_arg_val_t *arg,
                            char *buffer, size_t bs,
                            const rtosc_print_options* opt, int *cols_used, const rtosc_arg_val_t* prev_arg_if_range)
@@ -706,6 +725,8 @@ size_t rtosc_print_arg_val(const rtosc_arg_val_t *arg,
             STACKALLOC(rtosc_arg_val_t, args_converted, rtosc_arg_arr_len(val)); // range conversion
 
             COUNT_UP_WRITE('[');
+            const rtosc_arg_val_t* prev_start = NULL;
+            rtosc_arg_val_t prev_last;
             if(rtosc_arg_arr_len(val))
             for(int32_t i = 1; i <= rtosc_arg_arr_len(val); )
             {
@@ -713,8 +734,11 @@ size_t rtosc_print_arg_val(const rtosc_arg_val_t *arg,
                 const rtosc_arg_val_t* input = conv ? args_converted : arg+i;
 
                 size_t tmp = rtosc_print_arg_val(input, buffer, bs,
-                                                 opt, cols_used, (i == 1) ? NULL : arg + i -1);
-                i += conv ? conv : next_arg_offset(arg+i);
+                                                 opt, cols_used,
+                                                 left_neighbour(prev_start, arg+i, &prev_last));
+                int32_t inc = conv ? conv : (int32_t)next_arg_offset(arg+i);
+                prev_start = conv ? arg+i+inc-1 : arg+i;
+                i += inc;
                 COUNT_UP(tmp);
 
                 linebreak_check_after_write(cols_used, &wrt,
@@ -775,12 +799,15 @@ size_t rtosc_print_arg_vals(const rtosc_arg_val_t *args, size_t n,
     char* last_sep = buffer - 1;
     STACKALLOC(rtosc_arg_val_t, args_converted, n); // only used for range conversion
 
+    const rtosc_arg_val_t* prev_start = NULL;
+    rtosc_arg_val_t prev_last;
     for(size_t i = 0; i < n;)
     {
         int32_t conv = rtosc_convert_to_range(args, n-i, args_converted, opt);
         const rtosc_arg_val_t* input = conv ? args_converted : args;
 
-        size_t tmp = rtosc_print_arg_val(input, buffer, bs, opt, &cols_used, (i == 0) ? NULL : (args-1));
+        size_t tmp = rtosc_print_arg_val(input, buffer, bs, opt, &cols_used,
+                                         left_neighbour(prev_start, args, &prev_last));
         wrt += tmp;
         buffer += tmp;
         bs -= tmp;
@@ -792,6 +819,7 @@ size_t rtosc_print_arg_vals(const rtosc_arg_val_t *args, size_t n,
                                     opt->linelength);
 
         size_t inc = conv ? conv : next_arg_offset(args);
+        prev_start = conv ? args+inc-1 : args;
         i += inc;
         args += inc;
         if(i<n)
@@ -1460,12 +1488,13 @@ const char* rtosc_skip_next_printed_arg(const char* src, int* skipped,
                 if(llhssrc)
                 {
                     // an ellipsis inside a quoted string (possibly behind a
-                    // multiplier, 3x"...") is text, not a range
+                    // multiplier, 3x"...") is text, not a range, and one
+                    // inside an array belongs to that array
                     const char* llhsval = is_range_multiplier(llhssrc)
                                         ? strchr(llhssrc, 'x') + 1
                                         : llhssrc;
                     const char* next_ellipsis_from_llhssrc =
-                            (*llhsval == '"')
+                            (*llhsval == '"' || *llhsval == '[')
                             ? NULL
                             : strstr(llhssrc, "...");
                     if(next_ellipsis_from_llhssrc &&
